@@ -178,3 +178,192 @@ func vh_C06_meaning() {
 	}
 	vReach("meaning")
 }
+
+// ---- S: the tightest level: indexing, slicing, field access, calls ----
+
+// vC06Operand builds the infix tokens of a small integer expression over
+// the variables i and j together with its value.
+func vC06Operand(env *Zlisp, key string, i, j int64) ([]Sexp, int64) {
+	s := func(n string) Sexp { return env.MakeSymbol(n) }
+	switch vChoice(key, 6) {
+	case 0:
+		return []Sexp{s("i")}, i
+	case 1:
+		return []Sexp{s("i"), s("+"), vI(1)}, i + 1
+	case 2:
+		return []Sexp{s("j"), s("-"), vI(1)}, j - 1
+	case 3:
+		return []Sexp{s("i"), s("*"), vI(2), s("-"), vI(1)}, i*2 - 1
+	case 4:
+		return []Sexp{s("j"), s("-"), s("i")}, j - i
+	default:
+		return []Sexp{vI(1), s("+"), s("i"), s("*"), vI(2)}, 1 + i*2
+	}
+}
+
+// vh_C06_selectors: a[e], a[e1:e2], a[:e], a[e:], a[:] with compound
+// bound expressions bind tighter than every operator around them and mean
+// Go-style indexing/slicing of the array: the block's value equals the
+// element/sub-array computed from the values of the bound expressions; the
+// same with an operator on either side (arr[e] + k * arr[e']), as the target
+// of an assignment, and for a hash field h.k next to operators.
+func vh_C06_selectors() {
+	vFormatOpaque(true)
+	env := vStdEnvs(1)[0]
+	s := func(n string) Sexp { return env.MakeSymbol(n) }
+	i := vInt64("i")
+	j := vInt64("j")
+	vAssume(i >= -1 && i <= 3 && j >= -1 && j <= 5)
+	elems := []int64{10, 20, 30, 40}
+	for _, f := range vT(env, `(def arr [10 20 30 40]) (def i 9001) (def j 9002) (def h (hash k: 7 m: 9)) (defn dbl [u] (* u 2))`, &SexpInt{Val: i}, &SexpInt{Val: j}) {
+		if _, err, p := vEval(env, f); err != nil || p {
+			vAssert(false, "selectors-setup")
+			return
+		}
+	}
+	colon := s(":")
+	inRange := func(v int64) bool { return v >= 0 && v < int64(len(elems)) }
+	sliceOK := func(lo, hi int64) bool { return lo >= 0 && lo <= hi && hi <= int64(len(elems)) }
+	eval := func(tokens ...Sexp) (Sexp, error, bool) {
+		return vEval(env, vL(s("infix"), vA(env, tokens...)))
+	}
+	// a bare selector is an assignable place; binding it to a variable
+	// yields the selected value: { r := <tokens> ; r }
+	evalValue := func(tokens ...Sexp) (Sexp, error, bool) {
+		all := append([]Sexp{s("r"), s(":=")}, tokens...)
+		all = append(all, &SexpSemicolon{}, s("r"))
+		return vEval(env, vL(s("infix"), vA(env, all...)))
+	}
+	wantSlice := func(res Sexp, lo, hi int64, label string) {
+		arr, isA := res.(*SexpArray)
+		vAssert(isA, label+"-is-array")
+		if !isA {
+			return
+		}
+		vAssert(int64(len(arr.Val)) == hi-lo, label+"-length")
+		if int64(len(arr.Val)) == hi-lo {
+			for k := range arr.Val {
+				iv, isI := arr.Val[k].(*SexpInt)
+				vAssert(isI && iv.Val == elems[lo+int64(k)], label+"-elements")
+			}
+		}
+	}
+	intIs := func(res Sexp, want int64, label string) {
+		iv, isI := res.(*SexpInt)
+		vAssert(isI && iv.Val == want, label)
+	}
+	switch vChoice("shape", 9) {
+	case 0: // arr[e]
+		t1, v1 := vC06Operand(env, "e1", i, j)
+		res, err, p := evalValue(s("arr"), vA(env, t1...))
+		vAssert(!p, "index-no-panic")
+		if !p && inRange(v1) {
+			vAssert(err == nil, "index-in-range-succeeds")
+			if err == nil {
+				intIs(res, elems[v1], "index-value")
+			}
+		}
+	case 1: // arr[e1:e2]
+		t1, v1 := vC06Operand(env, "e1", i, j)
+		t2, v2 := vC06Operand(env, "e2", i, j)
+		toks := append(append(append([]Sexp{}, t1...), colon), t2...)
+		res, err, p := evalValue(s("arr"), vA(env, toks...))
+		vAssert(!p, "slice-no-panic")
+		if !p && sliceOK(v1, v2) {
+			vAssert(err == nil, "slice-in-range-succeeds")
+			if err == nil {
+				wantSlice(res, v1, v2, "slice")
+			}
+		}
+	case 2: // arr[:e]
+		t2, v2 := vC06Operand(env, "e2", i, j)
+		res, err, p := evalValue(s("arr"), vA(env, append([]Sexp{colon}, t2...)...))
+		vAssert(!p, "prefix-slice-no-panic")
+		if !p && sliceOK(0, v2) {
+			vAssert(err == nil, "prefix-slice-in-range-succeeds")
+			if err == nil {
+				wantSlice(res, 0, v2, "prefix-slice")
+			}
+		}
+	case 3: // arr[e:]
+		t1, v1 := vC06Operand(env, "e1", i, j)
+		res, err, p := evalValue(s("arr"), vA(env, append(append([]Sexp{}, t1...), colon)...))
+		vAssert(!p, "tail-slice-no-panic")
+		if !p && sliceOK(v1, 4) {
+			vAssert(err == nil, "tail-slice-in-range-succeeds")
+			if err == nil {
+				wantSlice(res, v1, 4, "tail-slice")
+			}
+		}
+	case 4: // arr[:]
+		res, err, p := evalValue(s("arr"), vA(env, colon))
+		vAssert(!p && err == nil, "whole-slice-succeeds")
+		if !p && err == nil {
+			wantSlice(res, 0, 4, "whole-slice")
+		}
+	case 5: // arr[e1] op1 k op2 arr[e2]: indexing binds tighter than any operator
+		t1, v1 := vC06Operand(env, "e1", i, j)
+		t2, v2 := vC06Operand(env, "e2", i, j)
+		op1 := []string{"+", "-", "*"}[vChoice("op1", 3)]
+		op2 := []string{"+", "-", "*"}[vChoice("op2", 3)]
+		res, err, p := eval(s("arr"), vA(env, t1...), s(op1), vI(3), s(op2), s("arr"), vA(env, t2...))
+		vAssert(!p, "index-in-expression-no-panic")
+		if !p && inRange(v1) && inRange(v2) {
+			vAssert(err == nil, "index-in-expression-succeeds")
+			if err == nil {
+				a, b := elems[v1], elems[v2]
+				ap := func(op string, x, y int64) int64 {
+					switch op {
+					case "+":
+						return x + y
+					case "-":
+						return x - y
+					}
+					return x * y
+				}
+				var want int64
+				if op2 == "*" && op1 != "*" {
+					want = ap(op1, a, ap(op2, 3, b))
+				} else {
+					want = ap(op2, ap(op1, a, 3), b)
+				}
+				intIs(res, want, "index-binds-tighter-than-operators")
+			}
+		}
+	case 6: // arr[e1] = v ; arr[e1] + 1
+		t1, v1 := vC06Operand(env, "e1", i, j)
+		v := vSmallInt("v")
+		_, err, p := eval(s("arr"), vA(env, t1...), s("="), v, s("+"), vI(1))
+		vAssert(!p, "index-assign-no-panic")
+		if !p && inRange(v1) {
+			vAssert(err == nil, "index-assign-succeeds")
+			res, err2, p2 := eval(s("arr"), vA(env, t1...), s("+"), vI(1))
+			vAssert(!p2 && err2 == nil, "index-read-back-succeeds")
+			if !p2 && err2 == nil && err == nil {
+				intIs(res, v.(*SexpInt).Val+2, "index-assignment-stores-right-side-value")
+			}
+		}
+	case 7: // h.k op i * h.m : field access binds tightest
+		dk := env.MakeSymbol("h.k")
+		dk.isDot = true
+		dm := env.MakeSymbol("h.m")
+		dm.isDot = true
+		res, err, p := eval(dk, s("+"), s("i"), s("*"), dm)
+		vAssert(!p && err == nil, "field-in-expression-succeeds")
+		if !p && err == nil {
+			intIs(res, 7+i*9, "field-access-binds-tightest")
+		}
+	default: // (dbl arr[e1]) + i * 2 : a parenthesised call is an operand
+		t1, v1 := vC06Operand(env, "e1", i, j)
+		call := vL(s("dbl"), vL(s("infix"), vA(env, s("arr"), vA(env, t1...))))
+		res, err, p := eval(call, s("+"), s("i"), s("*"), vI(2))
+		vAssert(!p, "call-in-expression-no-panic")
+		if !p && inRange(v1) {
+			vAssert(err == nil, "call-in-expression-succeeds")
+			if err == nil {
+				intIs(res, elems[v1]*2+i*2, "call-is-an-operand")
+			}
+		}
+	}
+	vReach("selectors")
+}
